@@ -228,6 +228,8 @@ N50Ok(x, p, g, n) ==
   /\ BigApprox(Scale(n.ha, 4), AhBig(x, p), BigOf(20000), 20)
   /\ BigApprox(Scale(n.hca, 6), ChAhBig(x, p), Scale(2, 6), 20)
   /\ n.wcref = CoRef(x)
+  \* the reported mean permeability of the windows is sum(Ch Ah) / Ah
+  /\ n.ha > 0 => BigApprox(BigMul(BigOf(n.hc), BigOf(n.ha)), Scale(n.hca, 2), BigAdd(BigOf(n.ha), BigOf(n.hc + 200)), 20)
   /\ IF n.vol <= 0 THEN n.n50ref = 0                                  \* V <= 0.001 m3
      ELSE BigApprox(BigMul(BigOf(n.n50ref), V), Leak(x, p, CoRef(x)), tol(V), 30)
   /\ IF x.meta.n50t = None
